@@ -233,6 +233,29 @@ pub fn run(ctx: &mut Ctx, c: &Case) -> (String, String) {
             }
             record(hs, &[], || memchr_op(&op, &be, &ns, hs))
         }
+        // is the backend reported available under the (possibly forced) CPU detection outcome?
+        #[cfg(all(target_arch = "x86_64", not(any(memchr_emu = "neon", memchr_emu = "simd128"))))]
+        "avail" => {
+            use memchr::arch::x86_64::{avx2, sse2};
+            let r = match c.str("isa") {
+                "avx2" => format!(
+                    "{}{}{}{}",
+                    avx2::memchr::One::new(1).is_some() as u8,
+                    avx2::memchr::Two::new(1, 2).is_some() as u8,
+                    avx2::memchr::Three::new(1, 2, 3).is_some() as u8,
+                    avx2::packedpair::Finder::new(b"ab").is_some() as u8
+                ),
+                "sse2" => format!(
+                    "{}{}{}{}",
+                    sse2::memchr::One::new(1).is_some() as u8,
+                    sse2::memchr::Two::new(1, 2).is_some() as u8,
+                    sse2::memchr::Three::new(1, 2, 3).is_some() as u8,
+                    sse2::packedpair::Finder::new(b"ab").is_some() as u8
+                ),
+                _ => "BadBackend".to_string(),
+            };
+            (r, "-".to_string())
+        }
         "pppair" => {
             let x = c.bytes("x");
             let (i1, i2) = (c.num("i1") as u8, c.num("i2") as u8);
@@ -510,6 +533,13 @@ pub fn memchr_raw_op(op: &str, be: &str, ns: &[u8], base: *const u8, so: usize, 
 macro_rules! pp_pair_isa {
     ($m:path, $x:expr, $i1:expr, $i2:expr) => {{
         use $m as pp;
+        if $i1 == 255 && $i2 == 255 {
+            // Finder::new: the pair chosen by Pair::new (default ranker)
+            return match pp::Finder::new($x) {
+                None => "NoPair".to_string(),
+                Some(f) => format!("Some({},{})", f.pair().index1(), f.pair().index2()),
+            };
+        }
         match memchr::arch::all::packedpair::Pair::with_indices($x, $i1, $i2) {
             None => "NoPair".to_string(),
             Some(p) => match pp::Finder::with_pair($x, p) {
